@@ -107,8 +107,28 @@ def _stmt(fn, n):
     return n
 
 
+def _upper_bound(fn, var: str):
+    """largest value of `var` the function's argument checks let through (from `var > K` / `K < var` refusals)"""
+    out = []
+    for n in cq.preorder(cq.body(fn)):
+        if n.get("kind") == "BinaryOperator" and n.get("opcode") in (">", "<", ">=", "<="):
+            a, b = (strip(x) for x in cq.kids(n))
+            op = n["opcode"]
+            if ctext(b) == var and op in ("<", "<="):
+                a, b, op = b, a, {"<": ">", "<=": ">="}[op]
+            if ctext(a) == var and op in (">", ">="):
+                k = cq.ceval(b)
+                if k is not None:
+                    out.append(k if op == ">" else k - 1)
+    return min(out) if out else None
+
+
 def r1_c(repo, chk):
     cu = cq.CUnit(os.path.join(repo.src, "_crypto.c"))
+    # what the sealing side can produce, the opening side accepts: sibling agreement of the two size checks
+    enc_max, dec_max = _upper_bound(cu.func("AEAD_encrypt"), "data_len"), _upper_bound(cu.func("AEAD_decrypt"), "data_len")
+    ok = enc_max is not None and dec_max is not None and dec_max >= enc_max + 16
+    chk.ob("R1", "AEAD_decrypt accepts every length AEAD_encrypt can produce (its limit is the encrypt limit plus the tag)", ok, f"encrypt accepts plaintext up to {enc_max} (+16 tag), decrypt refuses input above {dec_max}: genuine full-size packets are dropped as undecryptable", cu.loc(cu.func("AEAD_decrypt")))
     for fname, decrypt in (("AEAD_decrypt", True), ("AEAD_encrypt", False)):
         fn = cu.func(fname)
         # parsed argument order
